@@ -966,8 +966,10 @@ class Router:
         # Step 2: look up DE PV from LocT
         de_entry = self.location_table.get_entry(
             request.destination) if request.destination else None
-        if de_entry is None:
-            # No LocTE for destination → invoke Location Service (§10.3.7.1.2)
+        if de_entry is None or de_entry.position_vector.gn_addr != request.destination:
+            # No usable LocTE for destination (none, or a placeholder without the
+            # destination's position vector while a lookup is pending) → invoke
+            # Location Service (§10.3.7.1.2)
             assert request.destination is not None
             self.gn_ls_request(request.destination, request)
             return GNDataConfirm(result_code=ResultCode.ACCEPTED)
